@@ -117,10 +117,10 @@ class Run(object):
                             "the mechanism moved and the rule no longer sees it"
                             % (rid, r["instances"], r["floor"]))
 
-  def finish(self):
+  def finish(self, floors=True):
     known = load_known().get(self.prop, {})
     viol = [o for o in self.obs if not o.ok]
-    if not any(o.key() not in known for o in viol):
+    if floors and not any(o.key() not in known for o in viol):
       # A rule that sees fewer instances than were confirmed by hand must not pass silently;
       # when a violation was found anyway, the violation is the more useful report.
       self.check_floors()
